@@ -22,19 +22,21 @@ open Spec
 
 /-- Whatever `FormatSpec::parse` accepts (other than with the non-Python type letter `N`, which every
     `format_*` rejects) is in the reference grammar, without the `z` flag, and the parsed fields are
-    the grammar's fields with the `0` flag folded into fill/alignment; width and precision fit `i32`. -/
+    the grammar's fields (the `0` flag is the fill `0`; the alignment stays as written); the width fits
+    `i32`, the precision `isize`. -/
 theorem parse_spec_eq (s : List Nat) (r : FormatSpec) (h : parseSpec s = .ok r)
     (hN : r.ftype ≠ some (.number true)) :
     ∃ p, pyParseSpec s = some p ∧ p.z = false ∧ normOf p = r ∧
-      (∀ w, p.width = some w → w ≤ i32Max) ∧ (∀ n, p.precision = some n → n ≤ i32Max) :=
+      (∀ w, p.width = some w → w ≤ i32Max) ∧ (∀ n, p.precision = some n → n ≤ isizeMax) :=
   parse_spec_sound s r h hN
 
-/-- Conversely every spec of the reference grammar without `z`, with a width and a precision that
-    fit `i32`, is accepted with exactly those fields (`z` and larger numbers are the listed findings
-    `z-flag-rejected`, `precision-over-i32-rejected` and the width limit of b59d482). -/
+/-- Conversely every spec of the reference grammar without `z`, with a width that fits `i32` and a
+    precision that fits `isize` (CPython's own limit: "Too many decimal digits"), is accepted with
+    exactly those fields (`z` is the listed finding `z-flag-rejected`; the width limit is that of b59d482,
+    where CPython could only fail with MemoryError; the precision limit was `i32` before 45bc6fb). -/
 theorem parse_spec_complete_partial (s : List Nat) (p : PySpec) (h : pyParseSpec s = some p)
     (hz : p.z = false)
-    (hw : ∀ w, p.width = some w → w ≤ i32Max) (hp : ∀ n, p.precision = some n → n ≤ i32Max) :
+    (hw : ∀ w, p.width = some w → w ≤ i32Max) (hp : ∀ n, p.precision = some n → n ≤ isizeMax) :
     parseSpec s = .ok (normOf p) :=
   parse_spec_complete s p h hz hw hp
 
@@ -71,7 +73,7 @@ example : separateInteger [49, 50, 51, 52] 3 44 (max 8 4) = some [48, 44, 48, 48
 /-- `add_magnitude_separators` on the digits of an integer: the width drives zero padding exactly
     when the parsed fields say "fill `0`, align `=`", which is the reference's `zeroEq`. -/
 theorem group_zero_padding_spec (p : PySpec) (wf : WfSpec p) :
-    ((normOf p).fill = some 48 ∧ (normOf p).align = some .afterSign) ↔ zeroEq p = true :=
+    ((normOf p).fill = some 48 ∧ numberAlign (normOf p) = .afterSign) ↔ zeroEq p = true :=
   normOf_zeroPadded p wf
 
 /-! ## 3. Fill, alignment, width -/
@@ -85,13 +87,16 @@ theorem align_spec (spec : FormatSpec) (mag sign : List Nat) (dflt : Align)
       some (pyPad (spec.fill.getD 32) (alignChar (spec.align.getD dflt)) (spec.width.getD 0) sign mag) :=
   formatSignAndAlign_eq spec mag sign mag.length dflt hw hm rfl
 
-/-- … and the `0` flag is fill `0` with alignment `=` unless given otherwise. -/
+/-- … and for a number the `0` flag is fill `0` with alignment `=` unless given otherwise
+    (`number_align`; for a string it is fill `0` with the usual `<`, see `format_str_eq`). -/
 theorem zero_flag_spec (p : PySpec) (wf : WfSpec p) :
-    (normOf p).fill.getD 32 = effFill p ∧ alignChar ((normOf p).align.getD .right) = effAlignNum p :=
+    (normOf p).fill.getD 32 = effFill p ∧
+    alignChar ((normOf p).align.getD (numberAlign (normOf p))) = effAlignNum p :=
   ⟨normOf_fill p, normOf_alignNum p wf⟩
 
 example : formatSignAndAlign (normOf ⟨none, none, none, false, false, true, some 6, none, none, none⟩)
-    [49, 50] 2 [45] .right = some [45, 48, 48, 48, 49, 50] := by decide        -- "06" on -12 → -00012
+    [49, 50] 2 [45] (numberAlign (normOf ⟨none, none, none, false, false, true, some 6, none, none, none⟩)) =
+    some [45, 48, 48, 48, 49, 50] := by decide        -- "06" on -12 → -00012
 
 /-! ## 4. Domain of the end-to-end theorems -/
 
@@ -111,20 +116,20 @@ def InDomain (spec : List Nat) (v : Value) : Bool :=
     | .float _ => false
 
 theorem domain_bounds {p : PySpec} {n : Int} (h : InDomainInt p n = true) :
-    (∀ w, p.width = some w → w ≤ i32Max) ∧ (∀ m, p.precision = some m → m ≤ i32Max) := by
+    (∀ w, p.width = some w → w ≤ i32Max) ∧ (∀ m, p.precision = some m → m ≤ isizeMax) := by
   simp only [InDomainInt, boundsOkInt, Bool.and_eq_true, decide_eq_true_eq] at h
   obtain ⟨⟨⟨⟨h1, h2⟩, _⟩, _⟩, _⟩ := h
   constructor
   · intro w hw; rw [hw] at h1; simp at h1; unfold i32Max; omega
-  · intro m hm; rw [hm] at h2; simp at h2; unfold i32Max; omega
+  · intro m hm; rw [hm] at h2; simp at h2; unfold isizeMax; omega
 
 theorem domain_bounds_str {p : PySpec} {s : List Nat} (h : InDomainStr p s = true) :
-    (∀ w, p.width = some w → w ≤ i32Max) ∧ (∀ m, p.precision = some m → m ≤ i32Max) := by
+    (∀ w, p.width = some w → w ≤ i32Max) ∧ (∀ m, p.precision = some m → m ≤ isizeMax) := by
   simp only [InDomainStr, boundsOk, Bool.and_eq_true, decide_eq_true_eq] at h
-  obtain ⟨⟨⟨h1, h2⟩, _⟩, _⟩ := h
+  obtain ⟨⟨h1, h2⟩, _⟩ := h
   constructor
   · intro w hw; rw [hw] at h1; simp at h1; unfold i32Max; omega
-  · intro m hm; rw [hm] at h2; simp at h2; unfold i32Max; omega
+  · intro m hm; rw [hm] at h2; simp at h2; unfold isizeMax; omega
 
 /-! ## 5. `format_int`, `format_string`, `format_bool` equal Python's `format` -/
 
@@ -285,10 +290,10 @@ def format_eq_full : Prop :=
 
 def no_panic_full : Prop := ∀ (spec : List Nat) (v : Value), format spec v ≠ .panic
 
-/-- still false: `format("a", "=5")` is accepted -/
+/-- still false: `format(0xD800, "c")` is rejected (CPython returns the lone surrogate) -/
 theorem format_eq_fails : ¬ format_eq_full := by
   intro h
-  exact absurd (h [61, 53] (.str [97])) (by decide)
+  exact absurd (h [99] (.int 55296)) (by decide)
 
 section witnesses
 /- One witness per remaining known finding (the key is the entry of known_findings.d/C18.json). -/
@@ -300,18 +305,6 @@ theorem dev_z_flag : (∃ e, parseSpec [122, 46, 49, 102] = .error e) ∧
     returns the lone surrogate, which a Rust `String` cannot hold -/
 theorem dev_c_surrogate : (format [99] (.int 55296)).view = some none ∧
     pyFormat [99] (PyValue.int 55296) = some [55296] := by decide
-/-- str-eq-align-accepted: `format("a", "=5")` -/
-theorem dev_str_eq_align : (format [61, 53] (.str [97])).view = some (some [32, 32, 32, 32, 97]) ∧
-    pyFormat [61, 53] (PyValue.str [97]) = none := by decide
-
-/-- str-zero-flag-pads-left: `format("a", "05")` → "0000a", Python "a0000" -/
-theorem dev_str_zero_flag : (format [48, 53] (.str [97])).view = some (some [48, 48, 48, 48, 97]) ∧
-    pyFormat [48, 53] (PyValue.str [97]) = some [97, 48, 48, 48, 48] := by decide
-
-/-- precision-over-i32-rejected: `format("a", ".2147483648")` -/
-theorem dev_precision_over_i32 : (format [46, 50, 49, 52, 55, 52, 56, 51, 54, 52, 56] (.str [97])).view = some none ∧
-    pyFormat [46, 50, 49, 52, 55, 52, 56, 51, 54, 52, 56] (PyValue.str [97]) = some [97] := by decide
-
 /-- z-flag-rejected: `format(-0.0, "z.1f")` -/
 theorem dev_z_flag_float : (format [122, 46, 49, 102] (.float 9223372036854775808)).view = some none ∧
     pyFormat [122, 46, 49, 102] (PyValue.float 9223372036854775808) = some [48, 46, 48] := by decide +kernel
@@ -323,18 +316,6 @@ theorem dev_int_above_f64max : (format [101] (.int 17976931348623157081452742373
 /-- float-repr-tie-rounds-up: `format(600377706905611.25, "")` -/
 theorem dev_float_tie : (format [] (.float 4828158222569046106)).view = some (some [54, 48, 48, 51, 55, 55, 55, 48, 54, 57, 48, 53, 54, 49, 49, 46, 51]) ∧
     pyFormat [] (PyValue.float 4828158222569046106) = some [54, 48, 48, 51, 55, 55, 55, 48, 54, 57, 48, 53, 54, 49, 49, 46, 50] := by decide +kernel
-
-/-- float-default-type-alt-no-point: `format(1e100, "#")` -/
-theorem dev_float_alt_no_point : (format [35] (.float 6103021453049119613)).view = some (some [49, 101, 43, 49, 48, 48]) ∧
-    pyFormat [35] (PyValue.float 6103021453049119613) = some [49, 46, 101, 43, 49, 48, 48] := by decide +kernel
-
-/-- float-default-type-precision-no-dot-zero: `format(1.0, ".5")` -/
-theorem dev_float_no_dot_zero : (format [46, 53] (.float 4607182418800017408)).view = some (some [49]) ∧
-    pyFormat [46, 53] (PyValue.float 4607182418800017408) = some [49, 46, 48] := by decide +kernel
-
-/-- float-percent-overflow-alt: `format(f64::MAX, "#.0%")` -/
-theorem dev_float_percent_overflow : (format [35, 46, 48, 37] (.float 9218868437227405311)).view = some (some [105, 110, 102, 46, 37]) ∧
-    pyFormat [35, 46, 48, 37] (PyValue.float 9218868437227405311) = some [105, 110, 102, 37] := by decide +kernel
 
 end witnesses
 
@@ -395,7 +376,36 @@ theorem repaired_c_nonascii_width : (format [53, 99] (.int 255)).view = some (so
 
 /-- int-c-surrogate-panic (b3fed62): no panic any more -/
 theorem repaired_c_surrogate_no_panic : format [99] (.int 55296) ≠ .panic := by decide
-/-- precision-over-65535-panic (FIXHASH_A): `format(1.0, ".65536f")` no longer panics -/
+/-- str-eq-align-accepted (9bdbe36): `format("a", "=5")` is rejected -/
+theorem repaired_str_eq_align : (format [61, 53] (.str [97])).view = some none ∧
+    pyFormat [61, 53] (PyValue.str [97]) = none := by decide
+
+/-- str-zero-flag-pads-left (9bdbe36): `format("a", "05")` → "a0000"; `format("a", "0=5")` rejected;
+    the number keeps sign-aware zero padding: `format(-1, "05")` → "-0001" -/
+theorem repaired_str_zero_flag : (format [48, 53] (.str [97])).view = some (some [97, 48, 48, 48, 48]) ∧
+    pyFormat [48, 53] (PyValue.str [97]) = some [97, 48, 48, 48, 48] ∧
+    (format [48, 61, 53] (.str [97])).view = some none ∧ pyFormat [48, 61, 53] (PyValue.str [97]) = none ∧
+    (format [48, 53] (.int (-1))).view = some (some [45, 48, 48, 48, 49]) := by decide
+
+/-- precision-over-i32-rejected (45bc6fb): `format("a", ".2147483648")` → "a"; a float still rejects it -/
+theorem repaired_precision_over_i32 : (format [46, 50, 49, 52, 55, 52, 56, 51, 54, 52, 56] (.str [97])).view = some (some [97]) ∧
+    pyFormat [46, 50, 49, 52, 55, 52, 56, 51, 54, 52, 56] (PyValue.str [97]) = some [97] ∧
+    (format [46, 50, 49, 52, 55, 52, 56, 51, 54, 52, 56] (.float 4607182418800017408)).view = some none := by
+  decide
+
+/-- float-percent-overflow-alt (ca95121): `format(f64::MAX, "#.0%")` -/
+theorem repaired_float_percent_overflow : (format [35, 46, 48, 37] (.float 9218868437227405311)).view = some (some [105, 110, 102, 37]) ∧
+    pyFormat [35, 46, 48, 37] (PyValue.float 9218868437227405311) = some [105, 110, 102, 37] := by decide +kernel
+
+/-- float-default-type-alt-no-point (dabde2e): `format(1e100, "#")` -/
+theorem repaired_float_alt_no_point : (format [35] (.float 6103021453049119613)).view = some (some [49, 46, 101, 43, 49, 48, 48]) ∧
+    pyFormat [35] (PyValue.float 6103021453049119613) = some [49, 46, 101, 43, 49, 48, 48] := by decide +kernel
+
+/-- float-default-type-precision-no-dot-zero (6610c77): `format(1.0, ".5")` -/
+theorem repaired_float_no_dot_zero : (format [46, 53] (.float 4607182418800017408)).view = some (some [49, 46, 48]) ∧
+    pyFormat [46, 53] (PyValue.float 4607182418800017408) = some [49, 46, 48] := by decide +kernel
+
+/-- precision-over-65535-panic (1c70d07): `format(1.0, ".65536f")` no longer panics -/
 theorem repaired_precision_over_u16 :
     format [46, 54, 53, 53, 51, 54, 102] (.float 4607182418800017408) ≠ .panic := by decide +kernel
 
